@@ -182,6 +182,10 @@ def connStep0 (d : DState) (toks : List String) : DState × String :=
 
 def connStep (d : DState) (toks : List String) : DState × String :=
   match toks with
+  | ["commitf", "finish"] =>
+    -- the storage's own tpc_finish raises (reached only when the connection takes part in the commit): for the
+    -- connection the same path as a later manager failing after the vote — tpc_abort without abort
+    connStep0 d (if d.s.needsToJoin then ["commit"] else ["commitf", "rm", "after", "vote"])
   | ["commitf", "newoid", k] =>
     match k.toNat? with
     | none => (d, "bad-op")
